@@ -1,5 +1,6 @@
 """C19 Client survives connection loss: control structure of the reconnect machinery."""
 from an import (Tracer, Explorer, guard_at, strip, strip_casts, walk, fmt, callee, const_eval, Inter)
+from muxcommon import edge_literals_dominating
 from mir import loc_str, is_noise
 import rules_c03
 
@@ -329,6 +330,43 @@ def check(facts, rep, tier, cfg):
                         rep.bad("C19.R7", "state-bounded", where,
                                 "the stored back-off state `current` grows without the clamp by `max` (%s): after enough consecutive failures the "
                                 "multiplication overflows and the client task panics instead of retrying forever" % fmt(v)[:80])
+            # None exactly on `max_count != 0 && count >= max_count`; count advances by one per call
+            nones = [bi for bi, blk in enumerate(b.blocks) if not blk["cleanup"] for st in blk["stmts"]
+                     if st["k"] == "Assign" and st["lhs"]["l"] == 0 and not st["lhs"].get("p") and st["rv"]["k"] == "Aggregate"
+                     and st["rv"]["agg"].get("variant") == "None"]
+
+            def lim_nonzero(g):
+                p0 = strip_casts(g.pred)
+                if g.kind == "bool" and p0.kind == "bin" and const_eval(p0[3]) == 0 and any(x.kind == "field" and x[2] == "max_count" for x in walk(p0[2])):
+                    return {"Ne": {True}, "Eq": {False}, "Gt": {True}}.get(p0[1])
+                return None
+
+            def count_reached(g):
+                p0 = strip_casts(g.pred)
+                if g.kind == "bool" and p0.kind == "bin" and any(x.kind == "field" and x[2] == "count" for x in walk(p0[2])) and \
+                        any(x.kind == "field" and x[2] == "max_count" for x in walk(p0[3])):
+                    return {"Ge": {True}, "Lt": {False}}.get(p0[1])
+                return None
+            k7 += 1
+            wn = "%s (%s)" % (loc_str(b.loc), b.path)
+            if nones and all(edge_literals_dominating(facts, b, tr, nb, lim_nonzero) and edge_literals_dominating(facts, b, tr, nb, count_reached) for nb in nones):
+                rep.ok("C19.R7", "give-up-predicate", wn, "None only on max_count != 0 && count >= max_count")
+            else:
+                rep.bad("C19.R7", "give-up-predicate", wn, "Backoff::advance does not return None exactly on `max_count != 0 && count >= max_count` "
+                                                          "(gives up although max_retry_count is 0, one attempt early / late, or never)")
+            incs = []
+            for bi, blk in enumerate(b.blocks):
+                for st in blk["stmts"]:
+                    pr = (st["lhs"].get("p") or []) if st["k"] == "Assign" else []
+                    fl = [e["f"] for e in pr if isinstance(e, dict) and "f" in e]
+                    if fl and fl[-1] == "count":
+                        v = strip(tr.rvalue(st["rv"]))
+                        incs.append(v.kind == "bin" and v[1].startswith("Add") and const_eval(v[3]) == 1)
+            k7 += 1
+            if incs == [True]:
+                rep.ok("C19.R7", "count-by-one", wn, "count += 1 once per call")
+            else:
+                rep.bad("C19.R7", "count-by-one", wn, "the retry counter is not advanced by exactly one per Backoff::advance (max_retry_count counts wrongly)")
             r0 = tr.local(0)
             somes = [x for x in walk(r0) if x.kind == "agg" and x[2].endswith("Option::Some")]
             k7 += 1
